@@ -752,3 +752,23 @@ fn test_escape_filter_custom_formatter() {
         .unwrap();
     assert_eq!(result, "\\*|ok\\*end");
 }
+
+#[test]
+fn test_int_filter_integer_text_out_of_range() {
+    let env = Environment::new();
+    let eval = |s: &str| {
+        env.compile_expression("s|int")
+            .unwrap()
+            .eval(context! { s => s })
+            .map(|v| v.to_string())
+    };
+    assert_eq!(
+        eval("-170141183460469231731687303715884105728").unwrap(),
+        "-170141183460469231731687303715884105728"
+    );
+    assert_eq!(eval("+0042").unwrap(), "42");
+    assert_eq!(eval("12345678901.9e2").unwrap(), "1234567890190");
+    // one below i128::MIN rounds to -2^127 as a float, it is out of range nevertheless
+    assert!(eval("-170141183460469231731687303715884105729").is_err());
+    assert!(eval("170141183460469231731687303715884105728").is_err());
+}
